@@ -88,6 +88,25 @@ PROPS["C03"] = {
     },
 }
 
+PROPS["C15"] = {
+    "level": "fault_enumeration",
+    "exhaustive": True,
+    "cells": 69,
+    "rule": ("the table stall point {after connect, inside the first request line, between the two requests, inside a TLS hello, after the upgrade} x behaviour {silent, one byte per 10 s, "
+             "garbage then silent} x endpoint kind {tcp, unix, tcp+tls, ws, wss, udp/KCP, dns+udp, dns+tcp} (69 meaningful cells) is enumerated completely by run index; per run the number "
+             "of stallers (1-3), of well-behaved clients (1-3, each a separate client command), their arrival order and every delivery are sampled; non-trivial = every well-behaved "
+             "client finished while the stallers stayed connected; distinct = schedule shapes"),
+    "probes": ["stallers_started", "good_clients_served"],
+    "technique": "deterministic simulation: enumerated stall faults by scripted peers at every handshake step and endpoint kind, sampled arrivals, bounded-latency oracle for well-behaved clients",
+    "level_text": ("Fault enumeration: the finite table of stall points, behaviours and endpoint kinds is covered completely (several runs per cell with different arrivals and counts); each "
+                   "well-behaved client must complete handshake and a 1 KiB exchange within 60 simulated seconds of connecting while the stalled peers remain connected."),
+    "level_note": "Stallers are harness goroutines speaking the real transports (raw sockets, real TLS client, real gorilla websocket client, real KCP session, real DNS-tunnel client handshake). No bound is applied to the stallers themselves.",
+    "tiers": {
+        "quick": {"runs": 69 * 6, "chunk": 69, "shrink_s": 40},
+        "thorough": {"runs": 69 * 150, "chunk": 138, "shrink_s": 120},
+    },
+}
+
 PENDING = "check under construction in this round; see DESIGN.md section 5 for the planned simulation"
 NOT_APPLICABLE = [
     {"property_id": "C08", "reason": "pure function of one byte string (codec Encode/Decode): no schedule, clock, fault or second party for a simulator to control; see DESIGN.md section 6"},
